@@ -132,6 +132,71 @@ def run_concurrent_slow_destination():
     return viol
 
 
+def run_concurrent_slow_flush():
+    """Another thread is inside a slow flush() of the very same file while this thread logs and
+    acknowledges: what was acknowledged must be flushed too (a kill at that instant must not lose it)."""
+    import threading
+
+    events = []
+    viol = []
+
+    def go():
+        parked = threading.Event()
+        release = threading.Event()
+
+        class SlowFlush(Device):
+            def flush(self):
+                last = [e for e in self.events if e[0] == "write"][-1][1]
+                if b'"worker"' in last and not parked.is_set():
+                    parked.set()
+                    release.wait(10)
+                Device.flush(self)
+
+        eliot.add_destinations(FileDestination(file=SlowFlush(events)))
+        t = threading.Thread(target=lambda: eliot.log_message("w", who="worker"))
+        t.start()
+        if not parked.wait(10):
+            release.set()
+            t.join()
+            return None
+        acked = []
+
+        def main_logs():
+            eliot.log_message("m", who="main", n=1)
+            acked.append(1)
+            eliot.log_message("m", who="main", n=2)
+            acked.append(2)
+
+        m = threading.Thread(target=main_logs)
+        m.start()
+        m.join(3)
+        blocked = m.is_alive()
+        snapshot = list(events)
+        n_acked = len(acked)
+        release.set()
+        t.join()
+        m.join()
+        return blocked, snapshot, n_acked
+
+    r = world.run_isolated(go)
+    if r is None:
+        return [("harness:worker-never-reached-slow-flush", {})]
+    blocked, snapshot, n_acked = r
+    durable = b""
+    unflushed = b""
+    for e in snapshot:
+        if e[0] == "write":
+            unflushed += e[1]
+        else:
+            durable += unflushed
+            unflushed = b""
+    mine = [l for l in durable.split(b"\n") if b'"main"' in l]
+    if len(mine) < n_acked:
+        viol.append(("acknowledged-message-lost:other-thread-inside-slow-flush",
+                     {"acknowledged": n_acked, "flushed": len(mine), "main_thread_blocked": blocked}))
+    return viol
+
+
 def units(tier):
     ps = _programs(tier)
     out = [["mem", i, min(i + 20, len(ps))] for i in range(0, len(ps), 20)]
@@ -145,12 +210,15 @@ def units(tier):
     for fk in FILE_KINDS:
         out.append(["real", big, fk])
     out.append(["concurrent"])
+    out.append(["concurrent-flush"])
     return out
 
 
 def cases(unit, tier):
     ps = _programs(tier)
-    if unit[0] == "concurrent":
+    if unit[0] == "concurrent-flush":
+        yield ["concurrent-flush"]
+    elif unit[0] == "concurrent":
         yield ["concurrent"]
     elif unit[0] == "mem":
         for i in range(unit[1], unit[2]):
@@ -532,6 +600,10 @@ def run_real(prog, kind="binary-buffered"):
 
 
 def run_case(case):
+    if case[0] == "concurrent-flush":
+        v = run_concurrent_slow_flush()
+        world.fresh()
+        return Result(outcome=["concurrent-flush", len(v)], violations=v)
     if case[0] == "concurrent":
         v = run_concurrent_slow_destination()
         world.fresh()
